@@ -390,7 +390,7 @@ class RegexCompiler:
         # If so, we need to reset captures if the optional group matches zero-width
         # because per ECMAScript spec, zero-width optional matches should have
         # undefined captures (equivalent to skipping the group)
-        need_zero_width_reset = capture_groups and self._needs_advance_check(body)
+        need_zero_width_reset = self._needs_advance_check(body)
 
         if greedy:
             # Try match first, skip as backup. The captures are reset inside the
